@@ -432,12 +432,18 @@ class CustomSD(BaseCorrelations):
                 tmp_temperature))
         self.temperature = tmp_temperature
 
-        self._cutoff_function = \
-            lambda omega: CUTOFF_DICT[self.cutoff_type](omega, self.cutoff)
-        self._spectral_density = \
-            lambda omega: self.j_function(omega) * self._cutoff_function(omega)
-
         super().__init__(name, description)
+
+    # The following two are methods (not functions stored by __init__) such
+    # that they use the parameters of the object they are called on, also
+    # when that object is a copy.
+    def _cutoff_function(self, omega: ArrayLike) -> ArrayLike:
+        """The cutoff function for the current cutoff and cutoff type. """
+        return CUTOFF_DICT[self.cutoff_type](omega, self.cutoff)
+
+    def _spectral_density(self, omega: ArrayLike) -> ArrayLike:
+        """The spectral density including the cutoff. """
+        return self.j_function(omega) * self._cutoff_function(omega)
 
     def __str__(self) -> Text:
         ret = []
@@ -768,15 +774,21 @@ class PowerLawSD(CustomSD):
         self.cutoff = tmp_cutoff
 
         # use parent class for all the rest.
-        j_function = lambda w: 2.0 * self.alpha * w ** self.zeta \
-                               * self.cutoff ** (1 - zeta)
-
-        super().__init__(j_function,
+        super().__init__(self.j_function,
                          cutoff=cutoff,
                          cutoff_type=cutoff_type,
                          temperature=temperature,
                          name=name,
                          description=description)
+        # The spectral density without cutoff is the method `j_function`
+        # below; a function stored on the object would keep referring to
+        # this object (and its initial parameters) in copies of it.
+        del self.j_function
+
+    def j_function(self, omega: ArrayLike) -> ArrayLike:
+        """The spectral density without the cutoff. """
+        return 2.0 * self.alpha * omega ** self.zeta \
+            * self.cutoff ** (1 - self.zeta)
 
     def __str__(self) -> Text:
         ret = []
